@@ -9,6 +9,9 @@ import (
 	"encoding/json"
 	"fmt"
 	"io"
+	"os"
+	"os/exec"
+	"path/filepath"
 	"regexp"
 	"runtime/debug"
 	"sort"
@@ -408,6 +411,75 @@ func sweepTokens(c *core.Ctx, judge judgeFn) {
 	})
 }
 
+// ---------------------------------------------------------------- (g) the real command line with source files around
+
+// Programs that load other files (invite!, import, read) keep per-scope bookkeeping about "the file being
+// run"; a one-liner has no such file. Every sequence of <=3 (thorough 4) loading statements is run by the
+// real binary as a one-liner (-e) and as a script file, in a directory holding two helper modules.
+var cliStmts = []string{
+	`invite!("./h1")`, `invite!("./h2")`, `m := import("./h1")`, `import("./h2").p`, `read("./h1.pangaea").len.p`, `{|| invite!("./h2")}()`, `nil.try.{invite!("./nosuch")}.err?.p`, `v1.p`,
+}
+
+func sweepCLI(c *core.Ctx, judge judgeFn) {
+	cli := os.Getenv("PANMC_CLI")
+	if cli == "" {
+		c.HarnessError("PANMC_CLI is not set")
+		return
+	}
+	var progs []string
+	var rec func(cur []string)
+	depth := c.Pick(3, 4)
+	rec = func(cur []string) {
+		if len(cur) > 0 {
+			progs = append(progs, strings.Join(cur, "; "))
+		}
+		if len(cur) == depth {
+			return
+		}
+		for _, st := range cliStmts {
+			rec(append(append([]string{}, cur...), st))
+		}
+	}
+	rec(nil)
+	c.Note("cli_programs", len(progs)*2)
+	tk.Sharded(c, len(progs)*2, func(i int) {
+		c.Eval(1)
+		mode := []string{"cli-e", "cli-file"}[i%2]
+		judgeCLI(c, judge, cli, scase{Mode: mode, Src: progs[i/2]})
+	})
+}
+
+func judgeCLI(c *core.Ctx, judge judgeFn, cli string, s scase) {
+	dir, err := os.MkdirTemp(os.Getenv("PANMC_SCRATCH"), "c01cli")
+	if err != nil {
+		c.HarnessError("%v", err)
+		return
+	}
+	defer os.RemoveAll(dir)
+	os.WriteFile(filepath.Join(dir, "h1.pangaea"), []byte("v1 := 41\n"), 0o644)
+	os.WriteFile(filepath.Join(dir, "h2.pangaea"), []byte("invite!(\"./h1\")\nv2 := v1 + 1\n"), 0o644)
+	args := []string{"30", cli, "-e", s.Src}
+	if s.Mode == "cli-file" {
+		os.WriteFile(filepath.Join(dir, "main.pangaea"), []byte(s.Src+"\n"), 0o644)
+		args = []string{"30", cli, "main.pangaea"}
+	}
+	cmd := exec.Command("timeout", args...)
+	cmd.Dir = dir
+	var so, se strings.Builder
+	cmd.Stdout, cmd.Stderr = &so, &se
+	cmd.Run()
+	o := panrun.Obs{Kind: "value", Out: so.String()}
+	if i := strings.Index(se.String(), "panic: "); i >= 0 || strings.Contains(se.String(), "fatal error: ") {
+		if i < 0 {
+			i = strings.Index(se.String(), "fatal error: ")
+		}
+		o = panrun.Obs{Kind: "panic", Panic: strings.SplitN(se.String()[i:], "\n", 2)[0], Stack: se.String()[i:]}
+	} else if se.Len() > 0 {
+		o = panrun.Obs{Kind: "error", ErrKind: strings.SplitN(se.String(), ":", 2)[0]}
+	}
+	judge(s.Mode+": "+s.Src, s, s.Src, o, s.Mode)
+}
+
 // ---------------------------------------------------------------- (c) operator / index forms, (d) producers x consumers
 
 const sourcePrelude = "id := {|x| x}\nkwf := {|a: 0, b: 1| [a, b, \\_]}\n"
@@ -427,6 +499,7 @@ var producers = []string{
 var consumers = []string{
 	"§.p", "§.S", "§.repr", "§.foo", "§ + 1", "1 + §", "§ == §", "[§]", "[*§]", "{a: §}", "{**§}", "{§: 1}", "%{§: 1}", "%{1: §}", "%{**§}", "(§:3)", "(1:§)", "(1:3:§)",
 	"id(§)", "id(*§)", "id(**§)", "kwf(**§)", "kwf(*§)", "kwf(**§, **{b: 2})", "kwf(**{b: 2}, **§)", "{|| \\_}(**§)", "{**§}.keys", "§@{|k, v| k}", "oo := {m: m{|k: 0| k}}; oo.m(**§)", "§(1)", "§.call", "1 if § else 2", "§ if true", "!§", "-§", "§@{|x| x}", "§${|a, x| x}", "[1, 2]@(§){|x| x}", "[1, 2]$(§)+", "\"a#{§}b\"", "x := §; x", "§[0]", "§['a]", "[1, 2][§]",
+	"pk := §; {^pk: 1}", "pk := §; %{^pk: 1}", "pk := §; {^pk: 1, ^pk: 2}.keys", "pk := §; {a: 1}['a].{|x| {^pk: x}}",
 	"§.bear", "§.bear({a: 1})", "§.new", "§.new(1)", "§.try", "§.A", "§.keys", "§.proto", "§.ancestors", "§.kindOf?(Int)", "raise §", "return §", "defer §", "§.p; §.p",
 }
 
@@ -455,6 +528,8 @@ func sweepSources(c *core.Ctx, judge judgeFn) {
 				cases = append(cases, scase{Mode: "prefix", Src: p + x})
 			}
 		}
+		// a pinned key holding any value
+		cases = append(cases, scase{Mode: "pinned-key", Src: "pk := " + x + "; {^pk: 1}"}, scase{Mode: "pinned-key", Src: "pk := " + x + "; %{^pk: 1}"})
 		for _, y := range pool {
 			for _, op := range infixOps {
 				cases = append(cases, scase{Mode: "infix", Src: x + " " + op + " " + y})
@@ -610,6 +685,7 @@ func run(c *core.Ctx) {
 	judge := newJudge(c)
 	sweepREPL(c, judge)
 	sweepIterators(c, judge)
+	sweepCLI(c, judge)
 	sweepSources(c, judge)
 	sweepTokens(c, judge)
 	sweepProps(c, judge)
@@ -638,6 +714,10 @@ func replay(c *core.Ctx, raw json.RawMessage) {
 	}
 	var s scase
 	json.Unmarshal(raw, &s)
+	if s.Mode == "cli-e" || s.Mode == "cli-file" {
+		judgeCLI(c, judge, os.Getenv("PANMC_CLI"), s)
+		return
+	}
 	if s.Mode == "repl" {
 		judge("REPL session "+fmt.Sprintf("%q", s.Stdin), s, "", runREPL(s.Stdin), "repl")
 		return
